@@ -55,6 +55,8 @@ Fixpoint eval (s : store) (e : ex) : Z :=
       | [a; b] =>
           if String.eqb f "min" then (let x := eval s a in let y := eval s b in if y <? x then y else x)   (* std::min: (b < a) ? b : a *)
           else if String.eqb f "max" then (let x := eval s a in let y := eval s b in if x <? y then y else x)
+          else if String.eqb f "[]" then eval s a + eval s b          (* a[b]: address of the element, in elements *)
+          else if String.eqb f "distance" then eval s b - eval s a    (* std::distance of random-access iterators *)
           else 0
       | _ => 0
       end
@@ -103,6 +105,23 @@ Fixpoint top_calls (l : list stmt) : list (string * list ex) :=
   | Exp e :: r | Decl _ _ (Some e) :: r | Asg _ e :: r =>
       match call_of e with Some c => c :: top_calls r | None => top_calls r end
   | _ :: r => top_calls r
+  end.
+
+Definition call_sig_of (e : ex) : option (string * string) :=
+  match e with Call f sig _ => Some (f, sig) | _ => None end.
+Fixpoint top_call_sigs (l : list stmt) : list (string * string) :=
+  match l with
+  | [] => []
+  | Exp e :: r | Decl _ _ (Some e) :: r | Asg _ e :: r =>
+      match call_sig_of e with Some c => c :: top_call_sigs r | None => top_call_sigs r end
+  | _ :: r => top_call_sigs r
+  end.
+(* declared C types of the locals of a block, in order *)
+Fixpoint decl_types (l : list stmt) : list (string * string) :=
+  match l with
+  | [] => []
+  | Decl p t _ :: r => (p, t) :: decl_types r
+  | _ :: r => decl_types r
   end.
 
 (* first If (searching nested blocks depth-first, in source order) whose condition satisfies [pred] *)
